@@ -174,9 +174,11 @@ def _may_raise_expr(e: ast.AST | None) -> bool:
 
 class CFG:
 
-    def __init__(self, fn: FunctionInfo, env: dict[str, object] | None = None):
+    def __init__(self, fn: FunctionInfo, env: dict[str, object] | None = None,
+                 oracle: Callable[[ast.AST], "bool | None"] | None = None):
         self.fn = fn
         self.env = dict(env or {})
+        self.oracle = oracle
         self.nodes: list[Node] = []
         self.entry = self._new("entry")
         self.exit = self._new("exit")
@@ -191,6 +193,13 @@ class CFG:
         ends = self._block(body, [(self.entry, "next")])
         for n, lab in ends:
             self._edge(n, self.exit, lab)
+
+    def _truth(self, expr: ast.AST) -> "bool | None":
+        if self.oracle is not None:
+            v = self.oracle(expr)
+            if v is not None:
+                return v
+        return truth(expr, self.env)
 
     # -- construction -------------------------------------------------------
     def _new(self, kind: str, node: ast.AST | None = None,
@@ -208,15 +217,15 @@ class CFG:
         for p, lab in preds:
             self._edge(p, n, lab)
 
-    def _exc_edge(self, n: Node) -> None:
+    def _exc_edge(self, n: Node, label: str = "exc") -> None:
         """Node n may raise: connect to enclosing handlers or RAISE."""
         if self._handlers:
             for h in self._handlers[-1]:
-                self._edge(n, h, "exc")
+                self._edge(n, h, label)
             # an exception not matched by these handlers propagates further;
             # modelled through the handler group's `unmatched` node (last)
         else:
-            self._edge(n, self.raise_exit, "exc")
+            self._edge(n, self.raise_exit, label)
 
     def _events(self, expr: ast.AST | None, stmt: ast.AST,
                 preds: list[tuple[Node, str]], conditional: bool = False,
@@ -235,7 +244,7 @@ class CFG:
             return preds
         if isinstance(expr, ast.IfExp):
             preds = self._events(expr.test, stmt, preds, conditional, in_comp)
-            t = truth(expr.test, self.env)
+            t = self._truth(expr.test)
             if t is True:
                 return self._events(expr.body, stmt, preds, conditional,
                                     in_comp)
@@ -338,7 +347,7 @@ class CFG:
         if isinstance(stmt, ast.Raise):
             ends = self._simple(stmt, preds)
             for n, _ in ends:
-                self._exc_edge(n)
+                self._exc_edge(n, "raise")
             return []
         if isinstance(stmt, ast.Break):
             n = self._new("stmt", stmt, stmt)
@@ -358,7 +367,7 @@ class CFG:
             self._link(preds, t)
             if _may_raise_expr(stmt.test):
                 self._exc_edge(t)
-            v = truth(stmt.test, self.env)
+            v = self._truth(stmt.test)
             ends: list[tuple[Node, str]] = []
             if v is not False:
                 ends += self._block(stmt.body, [(t, "true")])
@@ -377,7 +386,7 @@ class CFG:
             self._link(pre, head)
             if _may_raise_expr(stmt.test):
                 self._exc_edge(head)
-            v = truth(stmt.test, self.env)
+            v = self._truth(stmt.test)
             breaks: list[Node] = []
             self._loops.append((loop_head, breaks))
             if v is not False:
